@@ -263,6 +263,84 @@ def col1(p, res, rule="COL-1"):
     return n
 
 
+# ------------------------------------------------------------------ WR-4
+def wr4(p, res):
+    """offset kernels over raw slices (vector-matrix product with `limb_offset`): the zero fill of the result starts exactly one stride after the last
+    explicitly addressed written limb; a gap would leave limbs with their previous contents"""
+    n = 0
+    ZERO = ("reim_zero", "fill", "znx_zero", "zero")
+    for f in sorted(p.lib_fns(), key=lambda x: x.uid):
+        pn = f.param_names()
+        if "limb_offset" not in pn.values() or f.kind == "Closure":
+            continue
+        outs = [l for l in range(1, f.argc + 1) if f.local_ty(l)["s"].startswith("&mut [")]
+        if not outs:
+            continue
+        lo_l = [l for l, nm in pn.items() if nm == "limb_offset"][0]
+        lo_atom = ("p", lo_l, ())
+        flow = Flow(f)
+        sym = Sym(f, flow)
+        vflow = Flow(f, transparent=("deref_mut", "as_mut"))
+        writes, tails = [], []
+        for bi, t in f.calls():
+            nm = (f.callee_def(t) or {}).get("n")
+            if nm != "index_mut" or len(t["a"]) != 2:
+                continue
+            if not any(r[0] == "param" and r[1] in outs for r in flow.op_roots(t["a"][0])):
+                continue
+            rty = f.local_ty(t["a"][1][1][0])["s"] if t["a"][1][0] in ("c", "m") else ""
+            if "RangeFrom" not in rty and "Range<" not in rty:
+                continue
+            start = sym.operand(t["a"][1], ("start",))
+            # loop variable of `for col in lo..hi` -> lo
+            for a in list(start.atoms()):
+                if a[0] == "call" and len(a) > 3 and a[3] == ("0",):
+                    t2 = f.blocks[a[2]]["t"]
+                    if (f.callee_def(t2) or {}).get("n") == "next":
+                        rg = wr.range_of_next(f, flow, sym, t2)
+                        if rg is not None and rg[0] is not None:
+                            out = Poly()
+                            for mono, c in start.t.items():
+                                term = Poly.const(c)
+                                for x in mono:
+                                    term = term * (rg[0] if x == a else Poly.atom(x))
+                                out = out + term
+                            start = out
+            # who consumes the sub-slice
+            dest = t["d"][0]
+            cons = None
+            for b2, t2 in f.calls():
+                if b2 == bi:
+                    continue
+                for x in t2["a"]:
+                    if x[0] in ("c", "m") and any(r[0] == "call" and r[1] == bi for r in vflow.op_roots(x)):
+                        cons = (f.callee_def(t2) or {}).get("n")
+            if cons in ZERO:
+                tails.append((start, t["l"]))
+            elif cons is not None:
+                writes.append((start, t["l"], cons))
+        if not tails:
+            continue
+        n += 1
+        explicit = [w for w in writes if lo_atom in w[0].atoms() and all(a[0] in ("p", "f") for a in w[0].atoms())]
+        if not explicit:
+            res.undec("WR-4", "%s: no explicitly addressed write involving limb_offset" % f.pretty)
+            continue
+        for tstart, tl in tails:
+            good = False
+            for w in explicit:
+                d = tstart - w[0]
+                if lo_atom not in d.atoms() and len(d.t) == 1 and all(c > 0 for c in d.t.values()) and all(a[0] == "p" for a in d.atoms()):
+                    good = True
+            if good:
+                res.ok("WR-4", {"fn": f.pretty, "tail_zero_from": repr(tstart), "last_written": [repr(w[0]) for w in explicit]})
+            else:
+                res.bad("WR-4", f.pretty, "tail-zero-gap",
+                        "%s zero-fills the result from offset `%r`, which is not one stride after the last limb it writes (`%s`): with limb_offset > 0 the limbs in between keep their previous contents"
+                        % (f.pretty, tstart, "`, `".join(repr(w[0]) for w in explicit)), site=f.where(tl))
+    return n
+
+
 def run(res, tier):
     res.level = "other"
     res.explanation = ("Shape-level clauses of C11 on MIR of every HAL shape function of the reference and AVX crates (functions with an (X, X_col) operand pair): for overwrite-type "
@@ -273,6 +351,7 @@ def run(res, tier):
     res.rule("WR-1", "overwrite-type shape function: written limb ranges (direct, via for_each, or forwarded to another overwrite-type shape function) cover [0, res.size()) for every ordering of the size variables; conditional writes need another write for the same limb")
     res.rule("WR-2", "every at/at_mut on a view of operand X takes X_col as its column (polynomial identity, closures included)")
     res.rule("WR-3", "pointers from as_ptr() of read-only slice operands never become store destinations")
+    res.rule("WR-4", "raw-slice kernels taking `limb_offset`: the zero fill of the result starts exactly one stride after the last explicitly addressed written limb (fft64 and ntt120 vector-matrix products)")
     res.rule("COL-1", "core noise-free operations write their result through HAL calls whose column is the variable of a range loop")
     res.assumptions = ["kernels write the whole limb slice they receive (C07-C09 territory)", "a conditional write whose guard is not a comparison of the limb index with a bound is assumed able to be false"]
     cfgs = ["avx-dev"] if tier == "quick" else ["avx-dev", "avx-nodbg", "ref-dev"]
@@ -290,4 +369,6 @@ def run(res, tier):
         res.floor("WR-3", "as_ptr sources on read-only operands", n3, 20)
         nc = col1(p, res)
         res.floor("COL-1", "core noise-free operations", nc, 12)
+        n4 = wr4(p, res)
+        res.floor("WR-4", "offset kernels with a zero-filled tail", n4, 2)
         res.fn_count += n_ow + n2
